@@ -1,2 +1,313 @@
-import AnyioModel.Stream.Buffered
-import AnyioModel.Stream.TextCodecs
+/-
+C16  Buffered and text stream wrappers are transparent to chunking.
+
+Property theorems only.  Models: `AnyioModel.Stream.Buffered` (BufferedByteReceiveStream),
+`AnyioModel.Stream.Text` (+ `TextCodecs`); lemmas: `Stream/FindProofs`, `Stream/BufferedProofs`,
+`Stream/BufferedLoops`, `Stream/TextProofs`, `Stream/Utf8Proofs`.
+
+Buffered part: every statement is for ALL states - any buffer contents, any remaining chunk
+list of the wrapped stream (= any chunking of any byte sequence), either kind of wrapped stream,
+any list `env` of environment choices (how many bytes a byte stream returns per call), open or
+closed - and for all arguments; `C16_conservation` is for all call sequences.
+`s.pending = s.buf ++ s.rest` is everything not yet handed out, in order.
+-/
+import AnyioModel.Stream.BufferedLoops
+import AnyioModel.Stream.Utf8Proofs
+
+namespace AnyioModel.Props.C16
+
+section Buffered
+open AnyioModel.Stream.Buffered
+
+/-- Nothing dropped, duplicated or reordered, for every call sequence (receive /
+receive_exactly / receive_until / feed_data / aclose in any order): what was handed out
+(results and consumed delimiters, in call order) followed by the final buffer is exactly the
+initial buffer followed by the bytes that entered (pulled from the wrapped stream or fed, in
+the order they entered); and the wrapped stream was consumed strictly from its front. -/
+theorem C16_conservation (s : State) (cs : List Call) :
+    handedOf cs (run s cs).1 ++ (run s cs).2.buf = s.buf ++ entered s cs ∧
+    s.rest = sourced s cs ++ (run s cs).2.rest := by
+  induction cs generalizing s with
+  | nil => simp [run, handedOf, entered, sourced]
+  | cons c cs ih =>
+    obtain ⟨ih1, ih2⟩ := ih (call s c).2
+    obtain ⟨p, h1, h2⟩ := call_conserves (show call s c = ((call s c).1, (call s c).2) from rfl)
+    have hp := pulledBy_eq h1
+    simp only [run, handedOf, entered, sourced, hp]
+    constructor
+    · rw [List.append_assoc, ih1, ← List.append_assoc, h2]
+      simp [List.append_assoc]
+    · rw [List.append_assoc, ← ih2, ← h1]
+
+/-- Without `feed_data` this reads: handed out ++ buffer ++ undelivered rest is the original
+pending byte sequence. -/
+theorem C16_conservation_nofeed (s : State) (cs : List Call) (hnf : ∀ c ∈ cs, fedBy c = []) :
+    handedOf cs (run s cs).1 ++ (run s cs).2.pending = s.pending := by
+  induction cs generalizing s with
+  | nil => simp [run, handedOf]
+  | cons c cs ih =>
+    have ih' := ih (call s c).2 (fun c' hc' => hnf c' (by simp [hc']))
+    obtain ⟨p, h1, h2⟩ := call_conserves (show call s c = ((call s c).1, (call s c).2) from rfl)
+    rw [hnf c (by simp), List.append_nil] at h2
+    simp only [run, handedOf]
+    rw [List.append_assoc, ih']
+    simp only [State.pending]
+    rw [← List.append_assoc, h2, h1, List.append_assoc]
+
+/-- One call: the bytes it hands out are a prefix of what was pending (buffer first, then the
+wrapped stream in order); a failing call hands out nothing and loses nothing. -/
+theorem C16_conservation_step {s s' : State} {c : Call} {r : Res} (h : call s c = (r, s'))
+    (hnf : fedBy c = []) : handed c r ++ s'.pending = s.pending ∧
+    (∀ e, r = .error e → s'.pending = s.pending) := by
+  obtain ⟨p, h1, h2⟩ := call_conserves h
+  rw [hnf, List.append_nil] at h2
+  have : handed c r ++ s'.pending = s.pending := by
+    simp only [State.pending]
+    rw [← List.append_assoc, h2, h1, List.append_assoc]
+  refine ⟨this, fun e he => ?_⟩
+  subst he
+  cases c <;> simpa [handed] using this
+
+/-- `receive(n)`: `ValueError` iff `n < 1` (checked first, nothing changes); otherwise 1..n
+bytes (given a wrapped stream that never delivers an empty chunk), a prefix of the pending
+bytes; it fails only on a closed stream or - `EndOfStream` - when nothing at all is pending,
+and a failing call leaves the state untouched. -/
+theorem C16_receive {s s' : State} {n : Nat} {r : Res} (h : receive s n = (r, s')) :
+    (n < 1 → r = .error .value ∧ s' = s) ∧
+    (∀ bs, r = .ok bs → 1 ≤ n ∧ bs ++ s'.pending = s.pending ∧
+      (NonemptyChunks s → 1 ≤ bs.length ∧ bs.length ≤ n)) ∧
+    (∀ e, r = .error e → s' = s ∧
+      (e = .value ∧ n < 1 ∨ e = .closed ∧ s.closed = true ∨ e = .eos ∧ s.pending = [])) ∧
+    (1 ≤ n → s.closed = false → s.pending ≠ [] → ∃ bs, r = .ok bs) := by
+  obtain ⟨hm, hv, he, hok1, hok2, -⟩ := receive_spec h
+  refine ⟨fun hn => ?_, fun bs hbs => ?_, he, fun h1 h2 h3 => ?_⟩
+  · exact ⟨hv hn, (he _ (hv hn)).1⟩
+  · subst hbs
+    exact ⟨(hok1 bs rfl).1, by simpa [handed] using hm.pending, hok2 bs rfl⟩
+  · cases r with
+    | ok bs => exact ⟨bs, rfl⟩
+    | error e =>
+      rcases (he e rfl).2 with ⟨-, hc⟩ | ⟨-, hc⟩ | ⟨-, hc⟩
+      · omega
+      · simp [h2] at hc
+      · exact absurd hc h3
+
+/-- `receive_exactly(n)`: exactly the first `n` pending bytes; otherwise `IncompleteRead`,
+only when the wrapped stream is at its end with fewer than `n` bytes in all (or
+`ClosedResourceError` on a closed stream), and then nothing is handed out or lost (what was
+pulled stays in the buffer).  The loop always terminates (`diverge` is not among the results). -/
+theorem C16_exactly {s s' : State} {n : Nat} {r : Res} (h : receiveExactly s n = (r, s')) :
+    (∀ bs, r = .ok bs → bs.length = n ∧ bs = s.pending.take n ∧ s'.pending = s.pending.drop n) ∧
+    (∀ e, r = .error e → s'.pending = s.pending ∧
+      (e = .incomplete ∧ s'.chunks = [] ∧ s.pending.length < n ∧ s.closed = false ∨
+       e = .closed ∧ s.closed = true)) ∧
+    (s.closed = false → n ≤ s.pending.length → ∃ bs, r = .ok bs) := by
+  obtain ⟨hm, hok, herr, hdiv, -⟩ := exactlyLoop_spec _ _ _ _ _ h
+  have hp := hm.pending
+  have herr' : ∀ e, r = .error e → s'.pending = s.pending ∧
+      (e = .incomplete ∧ s'.chunks = [] ∧ s.pending.length < n ∧ s.closed = false ∨
+       e = .closed ∧ s.closed = true) := by
+    intro e he
+    subst he
+    have hp' : s'.pending = s.pending := by simpa [handed] using hp
+    refine ⟨hp', ?_⟩
+    rcases herr e rfl with ⟨a, b, c, d⟩ | a | a
+    · refine .inl ⟨a, b, ?_, d⟩
+      rw [← hp']
+      simp [State.pending, State.rest, b]
+      exact c
+    · exact .inr a
+    · subst a
+      exact absurd rfl (hdiv (Nat.le_refl _))
+  refine ⟨fun bs hbs => ?_, herr', fun h1 h2 => ?_⟩
+  · subst hbs
+    have hl := hok bs rfl
+    simp only [handed] at hp
+    refine ⟨hl, ?_, ?_⟩
+    · rw [← hp, ← hl, List.take_left]
+    · rw [← hp, ← hl, List.drop_left]
+  · cases r with
+    | ok bs => exact ⟨bs, rfl⟩
+    | error e =>
+      rcases (herr' e rfl).2 with ⟨-, -, hc, -⟩ | ⟨-, hc⟩
+      · omega
+      · simp [h1] at hc
+
+/-- `receive_until(d, m)`: on success the result is exactly the bytes before the FIRST
+occurrence of `d` in the pending byte sequence (naive `find` from 0 on buffer ++ rest of the
+wrapped stream), the delimiter is consumed and does not occur in the result;
+`DelimiterNotFound` only if `d` does not occur in the first `m` pending bytes;
+`IncompleteRead` only at the end of the wrapped stream with `d` occurring nowhere; a failing
+call hands out nothing and loses nothing; the loop terminates. -/
+theorem C16_until {s s' : State} {d : List Byte} {m : Nat} {r : Res}
+    (h : receiveUntil s d m = (r, s')) :
+    (∀ bs, r = .ok bs → ∃ i, find0 d s.pending = some i ∧ bs = s.pending.take i ∧
+      s'.pending = s.pending.drop (i + d.length) ∧ (d ≠ [] → ∀ j, ¬ Occ d bs j)) ∧
+    (∀ e, r = .error e → s'.pending = s.pending ∧
+      (e = .notFound ∧ find0 d (s.pending.take m) = none ∨
+       e = .incomplete ∧ s'.chunks = [] ∧ find0 d s.pending = none ∧ s.closed = false ∨
+       e = .closed ∧ s.closed = true)) ∧
+    (s.closed = false → find0 d (s.pending.take m) ≠ none → ∃ bs, r = .ok bs) := by
+  obtain ⟨hm, hok, herr, hdiv, -⟩ := untilLoop_spec _ _ _ _ _ _ _ h (by simp)
+  have herr' : ∀ e, r = .error e → s'.pending = s.pending ∧
+      (e = .notFound ∧ find0 d (s.pending.take m) = none ∨
+       e = .incomplete ∧ s'.chunks = [] ∧ find0 d s.pending = none ∧ s.closed = false ∨
+       e = .closed ∧ s.closed = true) := by
+    intro e he
+    subst he
+    have hp' : s'.pending = s.pending := by simpa [handed] using hm.pending
+    refine ⟨hp', ?_⟩
+    rcases herr e rfl with ⟨a, b, c⟩ | ⟨a, b, c, d'⟩ | a | a
+    · refine .inl ⟨a, ?_⟩
+      rw [find0_eq_none_iff]
+      intro j hj
+      rw [← hp'] at hj
+      simp only [State.pending] at hj
+      rw [List.take_append_of_le_length b] at hj
+      exact c j (occ_of_occ_take hj)
+    · refine .inr (.inl ⟨a, b, ?_, c⟩)
+      rw [← hp', find0_eq_none_iff]
+      simpa [State.pending, State.rest, b] using d'
+    · exact .inr (.inr a)
+    · subst a
+      exact absurd rfl (hdiv (Nat.le_refl _))
+  refine ⟨fun bs hbs => ?_, herr', fun h1 h2 => ?_⟩
+  · obtain ⟨i, hf, hbs', hrest⟩ := hok bs hbs
+    refine ⟨i, find0_eq_some_iff.2 hf, hbs', hrest, fun hd j hj => ?_⟩
+    rw [hbs'] at hj
+    have hj' := occ_of_occ_take hj
+    have hb := hj.bound
+    have hdl : 0 < d.length := List.length_pos_iff.2 hd
+    simp at hb
+    exact hf.2 j (by omega) hj'
+  · cases r with
+    | ok bs => exact ⟨bs, rfl⟩
+    | error e =>
+      rcases (herr' e rfl).2 with ⟨-, hc⟩ | ⟨-, -, hc, -⟩ | ⟨-, hc⟩
+      · exact absurd hc h2
+      · exfalso
+        apply h2
+        rw [find0_eq_none_iff] at hc ⊢
+        exact fun j hj => hc j (occ_of_occ_take hj)
+      · simp [h1] at hc
+
+/-- The search offset kept between two iterations of `receive_until` is sound: if `d` does not
+occur in the buffer, then after appending any new data `c`, searching from
+`max(len(buf) - len(d) + 1, 0)` finds the same first occurrence as searching from 0. -/
+theorem C16_offset_sound (d buf c : List Byte) (h : find0 d buf = none) :
+    find d (buf ++ c) (buf.length + 1 - d.length) = find0 d (buf ++ c) :=
+  find_eq_find0_of_no_occ_below (no_occ_below_offset (find0_eq_none_iff.1 h))
+
+/-- `find0` is `bytes.find`: the first index at which `d` occurs. -/
+theorem C16_find_is_first_occurrence (d l : List Byte) (i : Nat) :
+    find0 d l = some i ↔ (Occ d l i ∧ ∀ j, j < i → ¬ Occ d l j) :=
+  find0_eq_some_iff
+
+/-! ### non-vacuity -/
+
+/-- a delimiter straddling a chunk boundary is found (object stream: "a|" then "|b", delimiter
+"||"), and the surplus stays buffered -/
+example : (run (init .obj [[97, 124], [124, 98]] []) [.until [124, 124] 8, .receive 5]).1 =
+    [.ok [97], .ok [98]] := by decide
+
+/-- the offset is tight: one more and the straddling occurrence is lost -/
+example : find [124, 124] ([97, 124] ++ [124]) 2 = none ∧
+    find0 [124, 124] ([97, 124] ++ [124]) = some 1 ∧
+    find [124, 124] ([97, 124] ++ [124]) (2 + 1 - 2) = some 1 := by decide
+
+/-- byte stream returning one byte per call (environment choices 1,1,1): receive_exactly loops -/
+example : (run (init .byte [[97, 98, 99, 100]] [1, 1, 1]) [.exactly 3, .receive 9]).1 =
+    [.ok [97, 98, 99], .ok [100]] := by decide
+
+/-- IncompleteRead keeps what was pulled: a later call still sees it -/
+example : (run (init .obj [[97], [98]] []) [.exactly 3, .receive 9]).1 =
+    [.error .incomplete, .ok [97, 98]] := by decide
+
+/-- DelimiterNotFound at the limit consumes nothing; an oversized object chunk: surplus kept -/
+example : (run (init .obj [[97, 98, 99], [100, 124]] []) [.until [124] 3, .receive 2, .receive 9,
+    .receive 1]).1 = [.error .notFound, .ok [97, 98], .ok [99], .ok [100]] := by decide
+
+example : (run (init .obj [[97, 98, 99]] []) [.receive 0, .receive 2, .feed [120], .close,
+    .receive 1, .exactly 2]).1 =
+    [.error .value, .ok [97, 98], .ok [], .ok [], .error .closed, .ok [99, 120]] := by decide
+
+end Buffered
+
+section Text
+open AnyioModel.Stream.Text
+
+/-- `TextReceiveStream`: for ANY incremental decoder (state + per-byte step, `decode` = fold),
+any input and any way of splitting it into chunks (also inside a multi-byte character, also
+with empty chunks): if the whole input decodes to `out`, the successive `receive()` calls
+return non-empty strings whose concatenation is `out` and then `EndOfStream`; if the whole
+input is malformed, a `UnicodeDecodeError` is raised however it is chunked. -/
+theorem C16_text_chunking {σ χ : Type} (D : Decoder σ χ) (whole : List Byte)
+    (cs : List (List Byte)) (hcs : cs.flatten = whole) :
+    (∀ sf out, D.decode D.init whole = some (sf, out) →
+      ∃ outs, receiveAll D cs = (outs, .eos) ∧ outs.flatten = out ∧ ∀ o ∈ outs, o ≠ []) ∧
+    (D.decode D.init whole = none → (receiveAll D cs).2 = .decode) := by
+  subst hcs
+  exact ⟨fun sf out h => receiveAllAux_spec D _ _ sf cs out h (Nat.lt_succ_self _),
+    fun h => receiveAllAux_error D _ _ cs h (Nat.lt_succ_self _)⟩
+
+/-- a single `receive()` never returns an empty string, from any decoder state -/
+theorem C16_text_receive_nonempty {σ χ : Type} (D : Decoder σ χ) (st : σ)
+    (cs : List (List Byte)) (out : List χ) (h : (receive D st cs).1 = .ok out) : out ≠ [] :=
+  ((receive_spec D st cs).1 out h).1
+
+/-- Round trip over abstract codecs: if decoding the concatenation of what the (stateful)
+encoder produced for a list of items gives back their concatenation, then sending the items
+through `TextSendStream`, re-chunking the transport bytes in ANY way and receiving through
+`TextReceiveStream` yields non-empty strings concatenating to the text sent. -/
+theorem C16_text_roundtrip {σ τ χ : Type} (E : Encoder τ χ) (D : Decoder σ χ)
+    (items : List (List χ)) (wire : List (List Byte))
+    (_hsend : sendAll E E.init items = (wire, none))
+    (hcodec : ∃ sf, D.decode D.init wire.flatten = some (sf, items.flatten))
+    (cs : List (List Byte)) (hcs : cs.flatten = wire.flatten) :
+    ∃ outs, receiveAll D cs = (outs, .eos) ∧ outs.flatten = items.flatten ∧
+      ∀ o ∈ outs, o ≠ [] := by
+  obtain ⟨sf, hd⟩ := hcodec
+  exact (C16_text_chunking D _ cs hcs).1 sf _ hd
+
+/-- UTF-8 (Lean core's encoder `String.utf8EncodeChar` / decoder `ByteArray.utf8DecodeChar?`):
+sending any list of strings through `TextSendStream` never fails, and receiving the transport
+bytes through `TextReceiveStream` over any re-chunking `cs` is the identity on the text. -/
+theorem C16_text_roundtrip_utf8 (items : List (List Char)) (cs : List (List Byte))
+    (hcs : cs.flatten = (sendAll utf8Encoder utf8Encoder.init items).1.flatten) :
+    (sendAll utf8Encoder utf8Encoder.init items).2 = none ∧
+    ∃ outs, receiveAll utf8Decoder cs = (outs, .eos) ∧ outs.flatten = items.flatten ∧
+      ∀ o ∈ outs, o ≠ [] := by
+  have hs : sendAll utf8Encoder utf8Encoder.init items =
+      (items.map (fun s => s.flatMap String.utf8EncodeChar), none) :=
+    sendAll_stateless utf8Encoder _ (fun _ _ => ⟨(), rfl⟩) _ items
+  refine ⟨by rw [hs], ?_⟩
+  refine C16_text_roundtrip utf8Encoder utf8Decoder items _ hs ⟨[], ?_⟩ cs (by rw [hcs, hs])
+  rw [flatten_map_flatMap]
+  exact utf8_decode_encode _
+
+/-! ### non-vacuity -/
+
+/-- U+20AC U+1F600 in UTF-16 with BOM, split inside the BOM, inside a code unit and between the
+two surrogates: three receives-worth of chunks yield the two characters -/
+example : receiveAll (utf16Decoder none)
+    [[0xFF], [0xFE, 0xAC], [0x20, 0x3D, 0xD8], [0x00], [0xDE]] =
+    ([[Char.ofNat 0x20AC], [Char.ofNat 0x1F600]], .eos) := by decide
+
+/-- UTF-8: "é😀" split inside both characters -/
+example : receiveAll utf8Decoder [[0xC3], [0xA9, 0xF0, 0x9F], [0x98, 0x80]] =
+    ([[Char.ofNat 0xE9], [Char.ofNat 0x1F600]], .eos) := by decide
+
+/-- the stateful encoder writes the BOM once (F9: a stateless one wrote it per item, and the
+second mark came back as U+FEFF) -/
+example : (sendAll (utf16Encoder none) (utf16Encoder none).init [['a'], ['b']]).1 =
+    [[0xFF, 0xFE, 0x61, 0x00], [0x62, 0x00]] := by decide
+
+example : (receiveAll (utf16Decoder none) [[0xFF, 0xFE, 0x61, 0x00], [0xFF, 0xFE, 0x62, 0x00]]).1 =
+    [['a'], [Char.ofNat 0xFEFF, 'b']] := by decide
+
+/-- malformed input is an error under every chunking, here one -/
+example : (receiveAll (utf16Decoder (some true)) [[0x00], [0xDC]]).2 = .decode := by decide
+
+end Text
+
+end AnyioModel.Props.C16
